@@ -15,6 +15,12 @@ import (
 // pt is a harness-declared scheduling point: a no-op in plain builds, vsched.Pt under E3.
 var pt = func(label string) {}
 
+// cleanPackageState puts the package-level variables of the package under test back to their
+// values at the first call (instrumented builds; a no-op in plain builds): histories explored one
+// after the other in one process must not see what an earlier history left in a process-wide
+// cache or pool.
+var cleanPackageState = func() {}
+
 // c12World is a fresh container plus the mutations and requests of a scenario.
 type c12World struct {
 	c    *restful.Container
